@@ -45,12 +45,11 @@ def main():
             results = {own: run_check(own)}
             detected = [own] if results[own]['exit'] == 1 else []
             for cid in ORDER:
-                if cid == own or len(detected) >= 2:
+                if cid == own or detected:
                     continue
-                if not detected or cid in ('C01', 'C02', 'C03', 'C04'):
-                    results[cid] = run_check(cid)
-                    if results[cid]['exit'] == 1:
-                        detected.append(cid)
+                results[cid] = run_check(cid)
+                if results[cid]['exit'] == 1:
+                    detected.append(cid)
             meta['matrix'] = {'repo_head': sh('git -C /repo rev-parse --short HEAD').stdout.strip(),
                               'verif_head': sh('git -C /verif rev-parse --short HEAD').stdout.strip(),
                               'detected_by': detected, 'own_check_detects': results[own]['exit'] == 1,
